@@ -87,8 +87,13 @@ def check_build(rep, case, build, entry='engine'):
         elif entry == 'generate_state':
             state = generate_state(b.processes, b.topology, copy.deepcopy(b.initial_state))
         else:
+            # the composite's own state names the given nodes with values that
+            # differ from what the process itself would give them
+            cstate = copy.deepcopy(b.initial_state)
+            for n in given:
+                tc.nested_set(cstate, list(n), b.initial[tuple(n)] + 5000)
             comp = Composite({'processes': b.processes, 'topology': b.topology,
-                              'state': copy.deepcopy(b.initial_state)})
+                              'state': cstate})
             state = None
     except Exception as e:
         rep.violation(sig, 'C15 construction raised %r; case %s given %s'
@@ -115,13 +120,31 @@ def check_build(rep, case, build, entry='engine'):
                       'C15 Composite.initial_state() contains _multi_update wrappers: %r' % (ist,),
                       {'case': case})
         return
-    bad = {str(n): flat.get(n, 'MISSING') for n in exp if flat.get(n, 'MISSING') != b.initial[n]}
+    gset = {tuple(n) for n in given}
+    want = {n: b.initial[n] + (5000 if n in gset else 0) for n in exp}
+    bad = {str(n): flat.get(n, 'MISSING') for n in exp if flat.get(n, 'MISSING') != want[n]}
     if bad:
         rep.violation(dict(sig, what='initial_state'),
-                      'C15 Composite.initial_state() gives %s, own initial values are %s; case %s'
-                      % (bad, {str(n): b.initial[n] for n in exp}, tc.case_id(case)),
+                      'C15 Composite.initial_state() gives %s, expected (the composite\'s state '
+                      'where it names the node, the process\'s own initial value otherwise) %s; '
+                      'case %s' % (bad, {str(n): want[n] for n in exp}, tc.case_id(case)),
                       {'case': case})
         return
+    if exp:
+        # a state handed in through the configuration wins over both
+        first = sorted(exp)[0]
+        cfg_state = {}
+        tc.nested_set(cfg_state, list(first), 9000)
+        flat2 = tc.flatten(comp.initial_state({'initial_state': cfg_state}))
+        want2 = dict(want)
+        want2[first] = 9000
+        bad = {str(n): flat2.get(n, 'MISSING') for n in exp if flat2.get(n, 'MISSING') != want2[n]}
+        if bad:
+            rep.violation(dict(sig, what='initial_state(config)'),
+                          'C15 Composite.initial_state({initial_state: %r}) gives %s, expected %s; '
+                          'case %s' % (cfg_state, bad, {str(n): want2[n] for n in exp},
+                                       tc.case_id(case)), {'case': case})
+            return
     if not globs:
         dflat = tc.flatten(comp.default_state())
         bad = {str(n): dflat.get(n, 'MISSING') for n in exp if dflat.get(n, 'MISSING') != b.default[n]}
@@ -138,11 +161,11 @@ def check_build(rep, case, build, entry='engine'):
                       {'case': case})
         return
     got = tc.flatten(store.get_value())
-    bad = {str(n): got.get(n, 'MISSING') for n in exp if got.get(n, 'MISSING') != b.initial[n]}
+    bad = {str(n): got.get(n, 'MISSING') for n in exp if got.get(n, 'MISSING') != want[n]}
     if bad:
         rep.violation(dict(sig, what='generate_store'),
-                      'C15 Composite.generate_store() nodes hold %s, expected the own initial '
-                      'values %s' % (bad, {str(n): b.initial[n] for n in exp}), {'case': case})
+                      'C15 Composite.generate_store() nodes hold %s, expected %s'
+                      % (bad, {str(n): want[n] for n in exp}), {'case': case})
 
 
 class Decl(Process):
@@ -218,8 +241,7 @@ def run(rep, tier, scratch, only=None):
         for bld in c['builds']:
             for entry in ('engine', 'generate_state'):
                 check_build(rep, c, bld, entry)
-            if len(tc.seq(bld['given'])) == 0:
-                check_build(rep, c, bld, 'composite')
+            check_build(rep, c, bld, 'composite')
             if 0 < len(tc.seq(bld['given'])) < len(bld['vals']):
                 rep.nontrivial.add(tc.case_id(c) + json.dumps(bld['given']))
         n += 1
